@@ -1075,7 +1075,7 @@ fn model_ok(m: &Model) -> bool {
 }
 
 fn run(cfg: &Cfg) -> Report {
-    let shards = cfg.tier.pick(128usize, 1024usize);
+    let shards = cfg.tier.pick(384usize, 1024usize);
     let per_shard = cfg.tier.pick(500u64, 5_000u64);
     let mut rep = par_shards(cfg, "c19", shards, |idx, rng, rep| {
         for k in 0..per_shard {
